@@ -28,6 +28,9 @@ REG = ("reg", "mem", 60, 600, 30, 60)
 QUERY = ("query", "mem", 25, 250, 30, 60)
 QUERYD = ("query", "disk", 10, 100, 30, 60)
 
+RESUME = ("resume", "mem", 25, 250, 40, 80)
+RESUMED = ("resume", "disk", 8, 80, 40, 80)
+
 ROW = ["row", "row.v", "row.cas", "row.exp", "row.json", "row.x", "row.tomb", "row.rev"]
 
 PROPS = {
@@ -75,6 +78,10 @@ PROPS = {
                      "in-memory (pre-recorded iterator) and on-disk (streaming iterator)"),
     "C18": dict(modules=["Rosmar.Properties.C18"], slices=[SUBDOC, SUBDOCD], proj=V.proj_all,
                 what="WriteSubDoc / SubdocInsert / GetSubDocRaw over object documents, dotted paths of every kind, CAS classes"),
+    "C15": dict(modules=["Rosmar.Properties.C15"], slices=[RESUME, RESUMED],
+                proj=P(rb=ROW, ev="*", results=True, ops={"feed", "stopfeed"}),
+                what="a checkpointed resume-mode feed stopped (terminator) and restarted (live and dump runs) between batches of writes; the "
+                     "checkpoint document read after every stop; the union of all runs against the final documents"),
     "C17": dict(modules=["Rosmar.Properties.C17"], slices=[KV, FEEDS, MULTI],
                 proj=P(rb=["row", "row.rev", "gwx"], ev=["k", "rev", "cas"], results=False),
                 what="revSeqNo in the row, $document / $document.revid, live and backfill RevNo"),
@@ -113,7 +120,7 @@ def extra_C10(tier, seed, log):
     return crash.run(tier, seed, log)
 
 
-EXTRA = {"C10": extra_C10, "C14": extra_C14, "C03": extra_C03, "C13": extra_sched("C13"), "C08": extra_sched("C08"), "C09": extra_sched("C09")}
+EXTRA = {"C10": extra_C10, "C14": extra_C14, "C03": extra_C03, "C13": extra_sched("C13"), "C08": extra_sched("C08"), "C09": extra_sched("C09"), "C15": extra_sched("C15")}
 
 
 def load_lines(path):
